@@ -42,7 +42,7 @@ Print Assumptions C01_reload_identity.
 
 (* (P) The property on the model. For every parser (list of leaves: key, type, default — nested groups are dotted
    keys), every configuration, every variant (format yaml/json, None entries kept or dropped, skip_default or not —
-   i.e. dump, --print_config[=skip_default], save) inside the guard (case_class = 0: none of the seven finding
+   i.e. dump, --print_config[=skip_default], save) inside the guard (case_class = 0: none of the finding
    classes), if each leaf value survives its own serialise/parse pair (leaf_stable), then dump -> text -> parse succeeds
    and returns the configuration, value for value and type for type. For any loader oracle yl and any plain_ok. *)
 Theorem C01_dump_parse_roundtrip :
@@ -50,17 +50,17 @@ Theorem C01_dump_parse_roundtrip :
     int_text_ok -> yfloat_text_ok yrepr -> jfloat_text_ok jrepr ->
     forall vr lvs,
       case_class yl vr lvs = 0%N ->
-      Forall (fun lw => leaf_stable yl (fst lw) (snd lw)) lvs ->
+      Forall (fun lw => leaf_stable yl (vr_skip_none vr) (fst lw) (snd lw)) lvs ->
       exists ws, roundtrip yl plain_ok yrepr jrepr dumper_table loader_table vr lvs = Some ws /\
                  Forall2 (fun w' w => veq w' w = true) ws (map snd lvs).
 Proof. exact dump_parse_roundtrip. Qed.
 Print Assumptions C01_dump_parse_roundtrip.
 
 (* the hypotheses are satisfiable by a non-trivial input: s: str = "1e3", n: Optional[int] = 7, l: List[str] =
-   ["null", "a: b"], dumped with skip_default — and the model run indeed returns the configuration *)
+   ["null", "a: b"], d: List[Limits] = [{low: None, high: 2}] (dataclass-typed value), dumped with skip_default — and the model run indeed returns the configuration *)
 Example C01_roundtrip_hyps_example :
   case_class id_yl yaml_skipdef ex_leaves = 0%N /\
-  Forall (fun lw => leaf_stable id_yl (fst lw) (snd lw)) ex_leaves /\
+  Forall (fun lw => leaf_stable id_yl false (fst lw) (snd lw)) ex_leaves /\
   roundtrip id_yl no_plain some_text some_text dumper_table loader_table yaml_skipdef ex_leaves = Some (map snd ex_leaves).
 Proof. exact roundtrip_hyps_example. Qed.
 Print Assumptions C01_roundtrip_hyps_example.
@@ -72,11 +72,12 @@ Theorem C01_save_skip_none_refuted :
 Proof. exact save_skip_none_witness. Qed.
 Print Assumptions C01_save_skip_none_refuted.
 
-(* skip_default trims items inside a dict-valued leaf: {a:1,b:2} over the default {a:1,b:3} re-parses to {b:2} *)
-Theorem C01_skip_default_dict_refuted :
-  exists lf w w', rt some_text yaml_skipdef lf w = Some w' /\ veq w' w = false.
-Proof. exact skip_default_dict_witness. Qed.
-Print Assumptions C01_skip_default_dict_refuted.
+(* the same inside a dataclass-typed VALUE: Optional[Limits] = {low: 0, high: None} saved with the default skip_none:
+   the nested dump drops `high` and the re-parse restores the field default 1 *)
+Theorem C01_save_nested_none_refuted :
+  exists lf w w', rt some_text save_default lf w = Some w' /\ veq w' w = false.
+Proof. exact save_nested_none_witness. Qed.
+Print Assumptions C01_save_nested_none_refuted.
 
 (* skip_default compares with ==: int 1 over the default 1.0 is dropped and re-parses to the float *)
 Theorem C01_skip_default_eq_refuted :
